@@ -1083,6 +1083,21 @@ func (ex *Executor) spawn(st *State, d deferred) {
 
 // ---------- operators ----------
 
+// strLess: lexicographic order. Decided on literals; on symbolic text an uninterpreted strict total order (irreflexive,
+// asymmetric, total on distinct strings; transitivity is not axiomatised). Counterexamples that hinge on the order of
+// symbolic strings may not replay (the decoded strings have their own order) and are then reported as inconclusive.
+func (ex *Executor) strLess(st *State, a, b *smt.Term) *smt.Term {
+	if a.IsConst() && b.IsConst() {
+		return smt.BoolC(a.S < b.S)
+	}
+	lt, gt := smt.App("uf_strlt", smt.Bool, a, b), smt.App("uf_strlt", smt.Bool, b, a)
+	eq := smt.Eq(a, b)
+	st.addPC(smt.Not(smt.And(lt, gt)))
+	st.addPC(smt.Implies(eq, smt.And(smt.Not(lt), smt.Not(gt))))
+	st.addPC(smt.Implies(smt.Not(eq), smt.Or(lt, gt)))
+	return lt
+}
+
 type bigInt = bigIntT
 
 func (ex *Executor) binop(st *State, op token.Token, x, y Val, xt types.Type) Val {
@@ -1125,14 +1140,23 @@ func (ex *Executor) binop(st *State, op token.Token, x, y Val, xt types.Type) Va
 		ex.abort("symbolic remainder")
 	case token.LSS:
 		if a.Sort == smt.String {
-			ex.abort("string ordering comparison")
+			return ex.strLess(st, a, b)
 		}
 		return smt.Lt(a, b)
 	case token.LEQ:
+		if a.Sort == smt.String {
+			return smt.Not(ex.strLess(st, b, a))
+		}
 		return smt.Le(a, b)
 	case token.GTR:
+		if a.Sort == smt.String {
+			return ex.strLess(st, b, a)
+		}
 		return smt.Gt(a, b)
 	case token.GEQ:
+		if a.Sort == smt.String {
+			return smt.Not(ex.strLess(st, a, b))
+		}
 		return smt.Ge(a, b)
 	case token.AND, token.OR, token.XOR, token.SHL, token.SHR, token.AND_NOT:
 		ai, ok1 := a.Int64()
@@ -1758,6 +1782,7 @@ func (ex *Executor) SetupRedirects(pkg *ssa.Package) {
 		"context.Cause":     "verifModelContextCause",
 		"sort.SliceStable":  "verifModelSliceStable",
 		"fmt.Fprintf":       "verifModelFprintf",
+		"sort.SearchStrings": "verifModelSearchStrings",
 		"sort.Slice":        "verifModelSliceStable",
 		"(*bytes.Reader).WriteTo": "verifModelReaderWriteTo",
 		"os.Stat":                 "verifModelStat",
